@@ -67,7 +67,7 @@ def rule_MP2(rep, prog, k):
     fn = prog.fn("dispatch_once_f")
     rep.saw(fn)
     te = calls_named(fn, "_dispatch_once_gate_tryenter")
-    co = calls_named(fn, "_dispatch_once_callout")
+    co = calls_named(fn, "_dispatch_once_callout") or calls_named(fn, "_dispatch_client_callout")      # the helper may be merged into dispatch_once_f
     wt = calls_named(fn, "_dispatch_once_wait")
     ok = len(te) == 1 and bool(co) and bool(wt)
     if ok:
@@ -82,7 +82,7 @@ def rule_MP2(rep, prog, k):
     rep.require(rid, ok, fn.file, fn.name, "once-callout-control",
                 "dispatch_once_f: the initialiser callout must be reached exactly on the success edge of _dispatch_once_gate_tryenter and every "
                 "other path must wait in _dispatch_once_wait", sample={"tryenter": len(te), "callout": len(co), "wait": len(wt)})
-    fn = prog.fn("_dispatch_once_callout")
+    fn = prog.fn("_dispatch_once_callout", required=False) or prog.fn("dispatch_once_f")
     rep.saw(fn)
     cc = calls_named(fn, "_dispatch_client_callout")
     bc = calls_named(fn, ("_dispatch_once_gate_broadcast", "_dispatch_once_mark_done", "_dispatch_gate_broadcast_slow")) + \
